@@ -28,6 +28,7 @@ Obs(e) ==
 Step(e) ==
     /\ \/ e.op = "enable" /\ Enable(e.d)
        \/ e.op = "disable" /\ Disable(e.d)
+       \/ e.op = "swap" /\ Swap(e.a, e.b)
        \/ e.op = "flip" /\ SwFlip(e.d)
        \/ e.op = "release" /\ SwRelease(e.d)
        \/ e.op = "search" /\ BallSearch(e.d)
